@@ -51,6 +51,7 @@ fn worker(path: &str, start: usize, end: usize) {
       exec::LAST_PANIC.with(|c| *c.borrow_mut() = loc);
     }));
   }
+  rspack_sources::verif::set_observer(Some(std::sync::Arc::new(exec::HarnessObserver)));
   let lines = read_lines(path);
   let stdout = std::io::stdout();
   let mut out = BufWriter::new(stdout.lock());
@@ -84,7 +85,10 @@ fn run_shard(path: &str, start: usize, end: usize, out_path: &str, timeout: u64)
   let mut out = BufWriter::new(std::fs::File::create(out_path).unwrap());
   let mut next = start;
   while next < end {
+    let side = format!("{out_path}.side");
+    let _ = std::fs::remove_file(&side);
     let mut child = Command::new(&exe)
+      .env("RSV_SIDE", &side)
       .args(["worker", path, &next.to_string(), &end.to_string()])
       .stdout(Stdio::piped())
       .stderr(Stdio::null())
@@ -139,11 +143,25 @@ fn run_shard(path: &str, start: usize, end: usize, out_path: &str, timeout: u64)
     }
     let status = child.wait().ok();
     let _ = reader.join();
+    let _ = &side;
     // drain whatever the reader still delivered
     while let Ok(line) = rx.try_recv() {
       writeln!(out, "{}", line).unwrap();
     }
     if let Some((pid, idx)) = current {
+      // precondition probes that failed right before the process died
+      if let Ok(text) = std::fs::read_to_string(&side) {
+        let failed: Vec<&str> = text.lines().collect();
+        if !failed.is_empty() {
+          writeln!(
+            out,
+            "{}",
+            json!({"op": "probe_fail", "pid": pid, "oc": "ok",
+                   "probes": {"sites": [], "failed": failed}})
+          )
+          .unwrap();
+        }
+      }
       let oc = if hung { "hang" } else { "abort" };
       writeln!(
         out,
